@@ -55,11 +55,41 @@ pub struct ProgOutcome {
     pub accepted: bool,
 }
 
+/// the dependency loops a rejection reports: the names the error value carries and the `'x' depends on 'y'` links
+/// of the rendered message (what the user reads), for validation against the statements by the specification
+fn loops_of(e: &hclrs::Error, contents: &FileContents) -> String {
+    let sums = hk::error_summary(e);
+    let cycles: Vec<&Vec<String>> = sums.iter().filter(|d| d.kind == "WireLoop").map(|d| &d.names).collect();
+    if cycles.is_empty() { return String::new(); }
+    let mut buf: Vec<u8> = Vec::new();
+    let _ = e.format_for_contents(&mut buf, contents);
+    let text = String::from_utf8_lossy(&buf).into_owned();
+    let mut links: Vec<(String, String)> = Vec::new();
+    for line in text.lines() {
+        if let Some(p) = line.find("' depends on '") {
+            let left = &line[..p];
+            if let Some(q) = left.rfind('\'') {
+                let rest = &line[p + "' depends on '".len()..];
+                if let Some(r) = rest.find('\'') { links.push((left[q + 1..].to_string(), rest[..r].to_string())); }
+            }
+        }
+    }
+    let mut out = String::new();
+    for (k, c) in cycles.iter().enumerate() {
+        let l: Vec<String> = if k == 0 { links.iter().map(|(a, b)| format!("({} {})", a, b)).collect() } else { Vec::new() };
+        write!(out, "(loop (cycle {}) (links {}))", c.join(" "), l.join(" ")).unwrap();
+    }
+    out
+}
+
 fn run_once(contents: &FileContents, cycles: u32, mem: &[(u64, u8)]) -> (String, bool, String) {
     let actions_out = std::cell::RefCell::new(String::new());
     let result = catch_unwind(AssertUnwindSafe(|| {
         match parse_y86_hcl(contents) {
-            Err(e) => (format!("rej {}", diag_string(&hk::error_summary(&e))), false),
+            Err(e) => {
+                *actions_out.borrow_mut() = loops_of(&e, contents);
+                (format!("rej {}", diag_string(&hk::error_summary(&e))), false)
+            }
             Ok(program) => {
                 // the schedule the real code produced, for validation by the model
                 let mut acts = String::from("(iactions");
